@@ -20,6 +20,9 @@ def main():
     m = __import__(mod)
     if len(sys.argv) > 3 and sys.argv[2] == '--replay':
         return m.replay_file(arg, sys.argv[3])
+    # replays of an earlier run are not evidence of this one
+    import shutil
+    shutil.rmtree(os.path.join(os.path.dirname(os.path.dirname(os.path.abspath(__file__))), 'replays', pid), ignore_errors=True)
     try:
         return m.main(arg)
     except SystemExit:
